@@ -762,8 +762,10 @@ def buffer_op_cases(tier, rng):
                     sel = {"slice": [lo, rng.randrange(lo, n + 1), rng.choice([1, 1, 2])]}
                 elif r < 0.7:
                     sel = {"mask": [rng.random() < 0.6 for _ in range(n)]}
-                else:
+                elif r < 0.95:
                     sel = {"idx": [rng.randrange(n) for _ in range(rng.choice([1, 2, 3]))]}
+                else:                                   # an index just outside the table: IndexError, not a row left out
+                    sel = {"idx": [rng.randrange(n) for _ in range(rng.choice([0, 1, 2]))] + [n + rng.choice([0, 0, 1, 5])]}
                 c = _case(fmt, a, rng.random() < 0.2, via="raw")
                 c["sel"] = sel
                 yield c
@@ -1216,6 +1218,8 @@ def _apply_sel(c, res):
         sel = c["sel"]
         idx = list(range(n))[slice(*sel["slice"])] if "slice" in sel else (
             [i for i, m in enumerate(sel["mask"]) if m] if "mask" in sel else list(sel["idx"]))
+        if any(i >= n for i in idx):
+            return {"unsupported": "index out of range"}          # must be reported (IndexError)
         pick = lambda col: [col[i] for i in idx]
         return {"n": len(idx), "cols": [pick(col) for col in res["cols"]]}
     return res
